@@ -25,7 +25,11 @@ def eval_case(case):
     S = O.Static(case)
     out = []
     rk = (case.get("rank"), case.get("crank"))
-    b1, tr1 = _dumps_for(case, rk)
+    from .. import modelrun
+    c1 = dict(case)
+    c1["rank"], c1["crank"] = rk
+    b1, tr1 = sim.run_ops(c1, want_snaps=True)
+    dis = modelrun.compare(c1, tr1, modelrun.FULL)
     d1 = tr1[-1]["dump"]
     if tr1[-1]["exc"] is None:
         # (i) a second build under other visit orders
@@ -41,7 +45,7 @@ def eval_case(case):
         df = O.dump_diff(d1, tr3[-1]["dump"])
         if df:
             out.append(O.V("calling simulate() again on a simulated project gives a different result", "C09/rerun", df[:3]))
-    return {"violations": out, "sig": simcheck.behaviour_sig(S, tr1), "hist": simcheck.base_hist(S, tr1),
+    return {"violations": out, "disagreements": dis, "sig": simcheck.behaviour_sig(S, tr1), "hist": simcheck.base_hist(S, tr1),
             "nontrivial": (d1 or {}).get("time", 0) >= 2, "dump": simcheck.jsonable(d1),
             "summary": {"status": (d1 or {}).get("status"), "time": (d1 or {}).get("time")}}
 
